@@ -16,8 +16,8 @@
    Section-hypothesis theorems stay: they hold for ANY repr/strtod pair satisfying the contract. *)
 From BS Require Import Model.Base Model.Num Model.Regex Model.NumText Gen.Unicode Gen.Regexes Proofs.C13 Proofs.C13rx.
 From Coq Require Import SpecFloat.
-From BS Require Model.Arith Model.LibMore.
-From BS Require Import Proofs.C13Ratio Proofs.C13Repr Proofs.C13NumStr Proofs.C13Total.
+From BS Require Model.Arith Model.LibMore Model.Interp Model.LibAll.
+From BS Require Import Proofs.C13Ratio Proofs.C13Repr Proofs.C13NumStr Proofs.C13Total Proofs.C13Lib.
 Local Open Scope Z_scope.
 
 (* THE TIE BETWEEN THE DIRECT FUNCTIONS AND THE REGENERATED REGEXES IS A THEOREM (Proofs/C13rx.v, via Proofs/RegexEval.v:
@@ -267,6 +267,20 @@ Theorem C13_model_repr_value_string_literal : forall f t, valid_binary prec emax
   num_text_full (NFlt f) = ARes t -> lit_match t = Some (O, length t).
 Proof. exact num_text_full_literal. Qed.
 Print Assumptions C13_model_repr_value_string_literal.
+
+(* THE PROPERTY ITSELF, in the interpreter's library model (Model/LibAll.v libfull: the table the interpreter model calls):
+   for every finite double x,  numberParseFloat(stringNew(x)) == x  — stringNew answers with a string t (never declined, never
+   null) and numberParseFloat of that string answers with the number x (argument validation from the regenerated Gen/ArgSpecs.v,
+   the separator test, the model's exponent guard and the finiteness filter all pass) *)
+Theorem C13_model_repr_library_roundtrip :
+  forall (cfg : BS.Model.Interp.config) (cb : BS.Model.Interp.caller) (f : flt) (w : BS.Model.Interp.world),
+  valid_binary prec emax f = true -> sf_is_finite f = true ->
+  exists t, fst (BS.Model.LibAll.libfull cfg cb (U "stringNew") [BS.Model.Interp.VNum (NFlt f)] w)
+              = BS.Model.Interp.LVal (BS.Model.Interp.VStr t) /\
+            fst (BS.Model.LibAll.libfull cfg cb (U "numberParseFloat") [BS.Model.Interp.VStr t] w)
+              = BS.Model.Interp.LVal (BS.Model.Interp.VNum (NFlt f)).
+Proof. exact lib_roundtrip. Qed.
+Print Assumptions C13_model_repr_library_roundtrip.
 
 (* non-vacuity (vm_compute): 0.1, 1e22, 5e-324, 1.7976931348623157e308, 123456789.123, -2.5e-07, 1e16, 0.0001, 123456.0 and
    2.2250738585072014e-308 are valid doubles, repr_float and num_text_full print exactly CPython's texts for them
